@@ -74,7 +74,8 @@ let handle (pl : string) : string =
   | ["prefs"; sched] ->
     let sc = ints sched in
     let ns = List.length (List.filter (fun c -> c >= 1000) sc) in
-    result "prefs" (let ((st, evs), oc) = run p fuel init_prefs (nat_list sc) O [] [] in (st, evs, oc)) ns
+    (* the real saver callbacks cannot report to the harness: their effect is observed through the file (outs) *)
+    result "prefs" (let ((st, evs), oc) = run p fuel init_prefs (nat_list sc) O [] [] in ({st with ran = []}, evs, oc)) ns
   | ["ssd"; lims; rs; k; sched] ->
     let l = ints lims and r = ints rs and sc = ints sched in
     let ns = List.length (List.filter (fun c -> c >= 1000) sc) in
